@@ -139,5 +139,6 @@ pub fn run(ctx: &Ctx) {
         let text = txjson::tx_json(tx, Spell::Auto).reordered(i % 3).to_text();
         expect_accept(ctx, P, "field-relations", i, &format!("{kname},relation={}", label.split(':').next().unwrap()), &text, tx, &keys()[0], &curve);
     });
+    foreign_members(ctx, P, "foreign-members");
 }
 fn kind_label(k: Kind) -> &'static str { match k { Kind::Legacy => "legacy", Kind::Eip2930 => "eip2930", Kind::Eip1559 => "eip1559" } }
